@@ -47,7 +47,7 @@ DESIGN_REF = "DESIGN.md §5 C07"
 def drivers():
     def args(tier, seed, scale):
         if tier == "quick":
-            n, nh, nl, nb, big = 220 * scale, 70 * scale, 26 * scale, 3, 10
+            n, nh, nl, nb, big = 220 * scale, 70 * scale, 26 * scale, 3, 8
         else:
             n, nh, nl, nb, big = 3000 * scale, 800 * scale, 400 * scale, 12, 40
         return ["-n", str(n), "-http", str(nh), "-live", str(nl), "-livebig", str(nb), "-big", str(big), "-seed", str(seed)]
